@@ -306,8 +306,27 @@ def union_find_replay(ck):
     ck.traces(cases, [], tag="uf", spec=("UFTrace.tla", "UFTrace.cfg"), sample_events=("UF",), timeout_ms=60000)
 
 
+def boruvka_models(ck):
+    """L2 transcription of compute_tree_boruvka (work lists, collapse, bucket clean-up, in-place compaction)
+    on graph families that keep two nodes in the large-degree list, for every weight assignment."""
+    q = ck.tier == "quick"
+    note = "L2 Boruvka as coded: TypeOK (compaction never writes past the list, tree never exceeds its reservation), Acyclic at every step, NothingForgotten (a live node with live neighbours is always in a work list), Result (spanning forest + cycle property) and Termination, for every assignment of the weight levels"
+    ck.model("Boruvka-two-hubs" + ("-2levels" if q else "-3levels"), "MCBoruvka.tla", "Boruvka_twohub_q.cfg" if q else "Boruvka_twohub.cfg",
+             note=note, workers=16, timeout=3000, required_actions=("LowStep", "EndLow", "CleanStep", "EndClean"))
+    for v, what in (("no_increment", "the compaction counter is not advanced"), ("cleared", "the large-degree list is cleared after the clean-up"),
+                    ("inverted", "the keep-condition of the compaction is inverted")):
+        ck.model("Boruvka-two-hubs-" + v, "MCBoruvka.tla", "Boruvka_twohub_%s_q.cfg" % v, expect="violation", workers=8,
+                 note="negative control (a seeded change of round 4): " + what + " - a hub that is still large is forgotten")
+    if not q:
+        ck.model("Boruvka-wheel", "MCBoruvka.tla", "Boruvka_wheel.cfg", note=note, workers=16, timeout=3000)
+        ck.model("Boruvka-forest-with-isolated-node", "MCBoruvka.tla", "Boruvka_forest.cfg", note=note, workers=8)
+        ck.model("Boruvka-K4-degree-assumption", "MCBoruvka.tla", "Boruvka_k4.cfg", expect="violation", workers=4,
+                 note="negative control for the algorithm's documented assumption (some live node always has at most MaxLow neighbours): on K4 with bound 2 nothing is ever processed and the tree stays empty")
+
+
 def plan_C15(ck):
     q = ck.tier == "quick"
+    boruvka_models(ck)
     union_find_replay(ck)
     if q and ck.violations:
         return
